@@ -155,3 +155,167 @@ def replay(prop, d):
 
 
 REGISTRY = {"C06": check_c06}
+
+
+# ------------------------------------------------------------------------------------------------ C07
+TOK_TEXT = {"s.pn": "ex:a", "s.abs": "<http://x.org/s>", "s.rel": "<r1>", "s.bn": "_:b1",
+            "p.pn": "ex:p", "p.a": "a", "p.abs": "<http://x.org/q>", "p.type": "rdf:type",
+            "o.pn": "ex:b", "o.abs": "<http://x.org/o#f>", "o.rel": "<r2>", "o.bn": "_:b2", "o.int": "57",
+            "o.str": '"x y"', "o.xsd": '"5"^^xsd:int', "o.dti": '"v"^^<http://x.org/dt>', "o.dtp": '"v"^^ex:dt',
+            "o.lang": '"hola"@es', "o.spec": '"a # b ; c , d . e"', "o.esc": '"q\\"u\\\\"', "o.cls": "ex:C"}
+SUBJ_TOKS = ["s.pn", "s.abs", "s.rel", "s.bn"]
+PRED_TOKS = ["p.pn", "p.a", "p.abs", "p.type"]
+OBJ_TOKS = ["o.pn", "o.abs", "o.rel", "o.bn", "o.int", "o.str", "o.xsd", "o.dti", "o.dtp", "o.lang", "o.spec", "o.esc", "o.cls"]
+GAPS = ["sp", "sp2", "tab", "nl", "nlsp", "cmt", "cline"]
+HEADER = ["@prefix ex: <http://ex.org/> .", "@prefix xsd: <http://www.w3.org/2001/XMLSchema#> .",
+          "@prefix rdf: <http://www.w3.org/1999/02/22-rdf-syntax-ns#> .", "@base <http://b.org/d/> ."]
+COMMENT_TAIL = ' # c " .'
+COMMENT_LINE = "# line ;"
+
+
+def ttl_lines(toks, gaps):
+    lines, cur = [], ""
+    for t, g in zip(toks, gaps):
+        line = cur + TOK_TEXT.get(t, t)
+        if g == "sp":
+            cur = line + " "
+        elif g == "sp2":
+            cur = line + "  "
+        elif g == "tab":
+            cur = line + "\t"
+        elif g == "nl":
+            lines.append(line)
+            cur = ""
+        elif g == "nlsp":
+            lines.append(line)
+            cur = "  "
+        elif g == "cmt":
+            lines.append(line + COMMENT_TAIL)
+            cur = ""
+        elif g == "cline":
+            lines.append(line)
+            lines.append(COMMENT_LINE)
+            cur = ""
+    if cur:
+        lines.append(cur)
+    return lines
+
+
+def random_ttl_doc(rnd, max_triples=8, gaps=GAPS, obj_toks=None):
+    obj_toks = obj_toks or [t for t in OBJ_TOKS if t != "o.cls"]
+    toks = []
+    n = 0
+    while n < max_triples and (n == 0 or rnd.random() < .8):
+        toks.append(rnd.choice(SUBJ_TOKS))
+        while True:
+            p = rnd.choice(PRED_TOKS)
+            toks.append(p)
+            while True:
+                toks.append("o.cls" if p in ("p.a", "p.type") and rnd.random() < .7 else rnd.choice(obj_toks))
+                n += 1
+                if n < max_triples and rnd.random() < .3:
+                    toks.append(",")
+                    continue
+                break
+            if n < max_triples and rnd.random() < .4:
+                toks.append(";")
+                continue
+            break
+        toks.append(".")
+    g = [rnd.choice(gaps) if rnd.random() < .6 else "sp" for _ in toks]
+    g[-1] = "nl"
+    return toks, g
+
+
+def skeleton(of, sf):
+    p2 = {"s.pn": "p.a", "s.abs": "p.abs", "s.rel": "p.type"}.get(sf, "p.pn")
+    s2 = {"s.pn": "s.bn", "s.abs": "s.rel", "s.rel": "s.pn"}.get(sf, "s.abs")
+    return [sf, "p.pn", of, ";", p2, "o.cls" if p2 in ("p.a", "p.type") else of, ",", "o.pn", ".", s2, "p.abs", of, "."]
+
+
+def _read_ttl(payload):
+    from shexer.io.graph.yielder.big_ttl_triples_yielder import BigTtlTriplesYielder
+    lines = HEADER + ttl_lines(payload["toks"], payload["gaps"])
+    text = "\n".join(lines) + "\n"
+
+    def go():
+        y = BigTtlTriplesYielder(raw_graph=text)
+        return [[_term(s), str(p), _term(o)] for s, p, o in y.yield_triples()]
+    st, val, exc, frame = runner.call_guarded(go, timeout=3)
+    return {"id": payload["id"], "toks": payload["toks"], "gaps": payload["gaps"], "lines": [list(l) for l in lines[len(HEADER):]],
+            "status": st, "exc": exc, "frame": frame, "triples": val if st == "ok" else []}
+
+
+def judge_ttl(out, docs, label):
+    results = runner.run_many(_read_ttl, docs, chunk=100)
+    for r in results:
+        if r.get("status") == "harness-error":
+            raise common.Machinery("harness error: %s\n%s" % (r.get("exc"), r.get("trace", "")))
+    traces = [{"id": r["id"], "toks": r["toks"], "gaps": r["gaps"], "lines": r["lines"], "status": r["status"], "triples": r["triples"]}
+              for r in results]
+    verdicts, stats = tlc.validate_batch("Trace_TtlReader", "Trace_TtlReader.cfg", traces, procs=14, xss="16m")
+    out.traces += len(traces)
+    out.evaluations += len(traces)
+    out.notes["monitor_states"] = out.notes.get("monitor_states", 0) + stats["states"]
+    drift = 0
+    for r in results:
+        v = verdicts[r["id"]]
+        if any(g != "sp" for g in r["gaps"][:-1]):
+            out.nontrivial.add(repr((r["toks"], r["gaps"])))
+        text = "\n".join("".join(l) for l in r["lines"])
+        for c in v["clauses"]:
+            if c.startswith("MACHINERY"):
+                raise common.Machinery("generator / renderer disagree on %r (%s)" % (text, c))
+            if c.startswith("drift"):
+                drift += 1
+        case = {"kind": "ttl", "doc": {"toks": r["toks"], "gaps": r["gaps"]}}
+        detail = "%s doc=%r yielded=%d triples %s %s" % (label, text, len(r["triples"]), r["status"], r["exc"])
+        out.judge_clauses([c for c in v["clauses"] if c.startswith("C07")], case, lambda c: True, detail=detail)
+        out.sample({"document": text, "yielded": r["triples"][:3], "clauses": v["clauses"]})
+    out.notes["drift_vs_transliteration"] = out.notes.get("drift_vs_transliteration", 0) + drift
+
+
+def layouts(toks, gapset, rnd=None, sample=None):
+    n = len(toks)
+    alls = itertools.product(gapset, repeat=n - 1)
+    if sample is not None:
+        total = len(gapset) ** (n - 1)
+        if total > sample:
+            return [[rnd.choice(gapset) for _ in range(n - 1)] + ["nl"] for _ in range(sample)]
+    return [list(g) + ["nl"] for g in alls]
+
+
+def check_c07(out, tier):
+    rnd = random.Random(common.seed() + 7)
+    for cfg in (["MC_C07_quick.cfg"] if tier == "quick" else ["MC_C07_thorough.cfg", "MC_C07_thorough2.cfg"]):
+        r = tlc.check_model("MC_TtlReader", cfg, timeout=3000, xss="16m")
+        out.add_l1(cfg, r)
+        for inv in r["violated"]:
+            out.violation("L1.%s" % inv, {"model": cfg}, "design-level counterexample (spec/MC_TtlReader, %s):\n%s" % (cfg, r["out"][-1500:]))
+    docs = []
+    i = 0
+    forms = [("o.pn", "s.pn"), ("o.str", "s.rel"), ("o.dtp", "s.abs"), ("o.lang", "s.bn"), ("o.spec", "s.pn"), ("o.int", "s.rel"),
+             ("o.esc", "s.abs"), ("o.xsd", "s.pn"), ("o.dti", "s.bn"), ("o.bn", "s.rel"), ("o.abs", "s.pn"), ("o.rel", "s.abs")]
+    per = 160 if tier == "quick" else 4096
+    for of, sf in forms:
+        toks = skeleton(of, sf)
+        for g in layouts(toks, ["sp", "nl"], rnd, sample=per):
+            docs.append({"id": "ttl%d" % i, "toks": toks, "gaps": g})
+            i += 1
+        for g in layouts(toks, GAPS, rnd, sample=per // 2):
+            docs.append({"id": "ttl%d" % i, "toks": toks, "gaps": g})
+            i += 1
+    for _ in range(700 if tier == "quick" else 12000):
+        toks, g = random_ttl_doc(rnd)
+        docs.append({"id": "ttl%d" % i, "toks": toks, "gaps": g})
+        i += 1
+    judge_ttl(out, docs, "layouts")
+    return ("Turtle documents of the reader's dialect: token sequences S P O (, O)* (; P O ...)* . over a vocabulary covering "
+            "prefixed / absolute / relative-to-@base IRIs, blank nodes, 'a' and rdf:type, plain / language-tagged / typed literals "
+            "(datatype as <IRI>, xsd:-prefixed, custom-prefixed), literals containing '#', ';', ',', '.', escaped quotes and "
+            "backslashes, untyped integers; layouts: every gap is a blank, two blanks, tab, line break, line break + indent, "
+            "trailing comment + line break, or a whole comment line; exhaustive / sampled line-break placements of a 13-token "
+            "document per token form, random documents up to 8 triples; non-trivial = at least one non-blank gap")
+
+
+REGISTRY["C07"] = check_c07
